@@ -129,5 +129,29 @@ def run(ck):
         if short in analysed:
             ck.proved("D-TABLE", short, "public decoder is catalogued and was analysed", "escape set and reads checked above", nontrivial=False)
         else:
-            ck.unknown("D-TABLE", short, "public decoder is catalogued and was analysed", "no analysis target covers this entry point")
+            # an entry point the catalogue does not know (a new public helper): analysed generically - the octet string and
+            # every other parameter symbolic - with the same read / escape rules; only if that is not possible is the run
+            # incomplete
+            try:
+                f = P.func(short)
+                it = TG.new_interp(P); env = TG.Env()
+                params = [a_.arg for a_ in f.node.args.posonlyargs + f.node.args.args]
+                if f.kind == "classmethod":
+                    params = params[1:]
+                kwargs = {}
+                for i_, pn in enumerate(params):
+                    ann = next((a_.annotation for a_ in f.node.args.posonlyargs + f.node.args.args if a_.arg == pn), None)
+                    ty = it.ann_type(f.module, ann) if ann is not None else None
+                    kwargs[pn] = TG.sym(pn, ty="bytes" if i_ == 0 else (ty if isinstance(ty, str) and ty in ("int", "bool", "bytes") else "int"))
+                if f.kind == "method":
+                    raise Unsupported("instance method")
+                it.call_func(f, [], kwargs, env)
+                fnn = f"{short} [generic]"
+                D.check_escape(ck, it, fnn, allowed=("ValueError",))
+                D.check_xbuf(ck, it, fnn)
+                ck.proved("D-TABLE", short, "public decoder is catalogued and was analysed", "not in the catalogue: analysed generically (all parameters symbolic)", nontrivial=False)
+            except Unsupported as e:
+                ck.unknown("D-TABLE", short, "public decoder is catalogued and was analysed", f"no analysis target covers this entry point, generic analysis not possible: {e}")
+            except Exception as e:  # noqa: BLE001
+                ck.unknown("D-TABLE", short, "public decoder is catalogued and was analysed", f"no analysis target covers this entry point ({type(e).__name__}: {e})")
     ck.floor("public decoders discovered", n, 45)
